@@ -56,6 +56,9 @@ def run(tier, seed):
     c = Check(PROP, tier, seed, "model_checking")
     c.assumptions = [
         "one refresh at a time (compute_cache is not called concurrently with itself)",
+        "reset_available_resources: in the model ONE critical section (as the code); interleavings INSIDE a reset only exist "
+        "in the free-running runs, where the harness resource's reset() takes 250 us so that other threads get in the way "
+        "if the pool lets them",
         "resources carry their true generation only in the harness (Res{rid,gen}); the real MKMap has none",
         "the schedule replay performs the refresh as the pool calls compute_cache makes; the real "
         "MithrilProverService (compute_cache vs compute_transactions_proofs) is exercised free-running (stress), "
@@ -68,13 +71,19 @@ def run(tier, seed):
          vacuity=None)
     # liveness: a caller parked in acquire is eventually served or times out (weak fairness)
     c.mc("pool", "MC_Pool", "MC_Pool_live.cfg", name="liveness", workers=8, timeout=1200)
+    # witness: a reset that takes the resources out of the pool and appends them back in a second critical section
+    # (the design the property forbids) violates the invariants -- the model is sensitive to it
+    w = vlib.tlc("pool", "MC_Pool", "MC_Pool_reset_witness.cfg", workers=4, timeout=600, coverage=False, metaname="C18_wit")
+    c.cov["stages"]["MC:witness:non-atomic-reset"] = {"violated": w.violated, "distinct": w.distinct, "wall_s": round(w.wall, 1)}
+    if not w.violated:
+        raise vlib.ToolError("witness: the model with a non-atomic reset violates nothing")
     c.build("vh-common", ["c18_pool"])
     # GEN + replay
-    gens = [("Pool_gen_1u.cfg", 1, ["u1", "rf"])]
+    gens = [("Pool_gen_1u.cfg", 1, ["u1", "rf", "rs"]), ("Pool_gen_1u_rs.cfg", 1, ["u1", "rf", "rs"])]
     if tier == "thorough":
-        gens.append(("Pool_gen_2u.cfg", 2, ["u1", "u2", "rf"]))
+        gens.append(("Pool_gen_2u.cfg", 2, ["u1", "u2", "rf", "rs"]))
     else:
-        gens.append(("Pool_gen_2u_s1.cfg", 1, ["u1", "u2", "rf"]))
+        gens.append(("Pool_gen_2u_s1.cfg", 1, ["u1", "u2", "rf", "rs"]))
     for cfg, size, procs in gens:
         sched = os.path.join(c.work, cfg.replace(".cfg", ".schedules.ndjson"))
         gen_schedules(c, cfg, sched, size, procs)
